@@ -285,6 +285,7 @@ impl Prop for C04 {
         ]
     }
     fn run(&self, ctx: &Ctx) {
+        ctx.journal_bytes.set(true);
         // grid
         let mut idx = 0usize;
         let nctx = CONTEXTS.len();
